@@ -3,7 +3,7 @@
 ENGINES = [
     {'name': 'vloop', 'path': 'vp/vloop.py', 'serves_properties': ['C03'], 'kind_free_text': 'virtual asyncio loop with explicit, classified ready-queue (order-preserving-delay scheduler seam)'},
     {'name': 'explore', 'path': 'vp/explore.py', 'serves_properties': ['C03', 'C06', 'C07', 'C08', 'C13', 'C16', 'C19', 'C20'], 'kind_free_text': 'deviation-bounded stateless schedule explorer (replay prefix on fresh objects, divergence = harness error)'},
-    {'name': 'enumerate', 'path': 'vp/props/*.py', 'serves_properties': ['C01', 'C02', 'C04', 'C05', 'C10', 'C11', 'C14', 'C15', 'C18'], 'kind_free_text': 'bounded-exhaustive enumeration of inputs/histories against a Python reference model, executed on the real code'},
+    {'name': 'enumerate', 'path': 'vp/props/*.py', 'serves_properties': ['C01', 'C02', 'C04', 'C05', 'C10', 'C11', 'C12', 'C14', 'C15', 'C18'], 'kind_free_text': 'bounded-exhaustive enumeration of inputs/histories against a Python reference model, executed on the real code'},
 ]
 
 NOTES = ('All checks drive the real bumble code imported from /repo\'s working tree; no model in another language. '
@@ -139,6 +139,14 @@ CLAIMS['C16'] = {
     'technique': 'fault enumeration: 5 fault kinds injected before every message delivery of 28 awaited procedures on two real stacks (thorough: x one held message channel), with table-agreement, residue and reconnect-and-rerun oracles',
     'text': '26 procedures that await the peer (GATT read/long read/write/discover/subscribe, indicate, pair legacy-JW/SC-JW/SC-passkey, LE CoC connect/disconnect/drain, HCI command, LE remote features, L2CAP parameter update, disconnect by either role, classic channel connect/disconnect, RFCOMM start+open_dlc and close, SDP search, AVDTP discover, remote name, role switch) + idle connections; every message index 0..N of the fault-free run (1092 boundaries) x {local disconnect, peer disconnect, link loss reported to both controllers, HCI transport loss on the waiting side, on the other side}: after quiescence + 120 virtual seconds every awaited call is done, host/device/controller tables agree, no per-connection registry entry remains for a dead connection, an HCI command still succeeds, and after reconnecting the same procedure succeeds.',
     'note': 'Default schedule in quick; thorough adds one held channel from the injection point (d<=1). authenticate/encrypt, CIS/SCO and EATT bearers are not driven. A call that ends only by a built-in timeout is counted, not flagged.',
+}
+
+CLAIMS['C12'] = {
+    'level': 'exploration',
+    'engine': 'enumerate',
+    'technique': 'bounded-exhaustive enumeration of database shapes from a grammar x MTU pairs x bearers on real client/server stacks against an independent reference, exhaustive subscription-state vectors over three bearers, and tree exploration of adversarial response scripts with a request budget for the termination clause',
+    'text': 'discovery: all database shapes with <=2 of 5 grammar axes off the minimal database (1-3 services x UUID widths 16/32/128 x primary/secondary x include edges/chains/runs, characteristic UUID-width patterns, property sets, 0-2 descriptors + CCCD, static/dynamic values), also behind the default GAP/GATT services, x links (no MTU exchange, MTU preference pairs from {23,24,50,185,517}^2, EATT MTU 64/2048): every discovery procedure equals the reference tree (UUIDs by value, handles, end-group handles, properties), every attribute reads back its value, writes with/without response take effect. long_read: value lengths {0,1,MTU-4..MTU,k(MTU-1)+-1,511,512} x 28 links (thorough: every MTU 23..517 both ways). notify: every subscription vector in {none,N,I}^6 over 3 bearers (ATT of two clients + EATT) x 16 API forms: PDU kind on the wire, exactly the subscribed bearers, truncation to MTU-3, one confirmation per indication and the call pending until it arrives. termination: 6 discovery procedures x scripts of <=3 items over 14 adversarial response kinds with the last repeated for ever, request budget 70000.',
+    'note': '<=2 grammar axes off; one EATT bearer; long writes (prepare/execute) are not in the client API. Non-termination is budget-confirmed for one representative per (procedure, repeated item).',
 }
 
 NOT_CLAIMED = {}
